@@ -5,9 +5,9 @@
 //! `fn prepare_request` (every inherent impl in token/mod.rs, devicecode.rs, introspection.rs, revocation.rs)
 //!     stmt*  tail
 //!   stmt :=  let x [: T] = E;                                         name for E
-//!         |  let mut P [: T] = vec![ ("lit", V), .. ];                the parameter vector (at most one)
+//!         |  let [mut] P [: T] = vec![ ("lit", V), .. ];              the parameter vector (at most one)
 //!         |  P.push(("lit", V));                                      unconditional push
-//!         |  if let Some([ref] x) = E { P.push(("lit", V)); .. }      conditional push(es), no `else`
+//!         |  if let Some([ref] x) = E { (let y = E; | P.push(("lit", V));)+ }   conditional push(es), no `else`
 //!   tail :=  endpoint_request(A1, .., An) [.map_err(|e| <Path>(..))]  n = number of parameters of endpoint_request
 //!   Ai   :=  None | Some(E) | P | vec![ ("lit", V), .. ] | E          (`vec!` only when there is no `let mut P`)
 //!   V    :=  "lit" | E
@@ -140,9 +140,15 @@ fn push_stmt(file: &str, item: &str, env: &Env, acc: &str, st: &syn::Stmt) -> R<
                 return fail(file, item, "`if let Some(x) = E { push.. }` without `else`");
             }
             let scrut = canon(strip_ref(&env.resolve(&l.expr)));
-            let inner = env.with_rename(&binder, "it");
+            let mut inner = env.with_rename(&binder, "it");
             let mut out = Vec::new();
             for s in &i.then_branch.stmts {
+                if let syn::Stmt::Local(l) = s {
+                    if let Some((nm, false, init)) = plain_let(l) {
+                        inner.bind(&nm, init);
+                        continue;
+                    }
+                }
                 let t = match s {
                     syn::Stmt::Expr(x, _) => push_call(acc, x),
                     _ => None,
@@ -184,14 +190,14 @@ fn prepare(file: &str, owner: &str, f: &syn::ImplItemFn, ep_params: &[String]) -
     for st in &f.block.stmts[..n - 1] {
         match st {
             syn::Stmt::Local(l) => match plain_let(l) {
-                Some((name, true, init)) => match vec_macro(init) {
+                Some((name, is_mut, init)) if is_mut || vec_macro(init).is_some() => match vec_macro(init) {
                     Some(elems) if acc.is_none() => {
                         pushes = vec_pairs(file, item, &env, &elems)?;
                         acc = Some(name);
                     }
-                    _ => return fail(file, item, "at most one `let mut <params> = vec![(\"name\", value), ..];`"),
+                    _ => return fail(file, item, "at most one `let [mut] <params> = vec![(\"name\", value), ..];`"),
                 },
-                Some((name, false, init)) => env.bind(&name, init),
+                Some((name, _, init)) => env.bind(&name, init),
                 None => return fail(file, item, format!("`let x = E;` or `let mut params = vec![..];`, found `{}`", canon(l))),
             },
             other => {
